@@ -367,7 +367,7 @@ def run_check(prop, tier, seed, replay=None):
         first = concrete[0]
         n_replay += 1
         path = write_replay(prop, n_replay, {
-            "property": prop, "kind": first["kind"], "cases": [c["case"].replace(" ", "\t") for c in concrete[:20]],
+            "property": prop, "kind": first["kind"], "cases": [(c["case"].replace("\x1f", "\t") if "\x1f" in c["case"] else c["case"].replace(" ", "\t")) for c in concrete[:20]],
             "reasons": [c["reason"] for c in concrete[:20]], "count": len(concrete), "broken_obligations": broken,
             "replay_cmd": "./check %s --replay <this file>" % prop})
         print("VIOLATION property=%s replay=%s" % (prop, path))
